@@ -28,7 +28,7 @@ def one_case(args):
     exe, wd, seed, case, tier = args
     rng = rng_for(seed, case)
     out = dict(case=case, viol=None, runs=0, key=None, sample=None)
-    kind = rng.choice(["clean", "errors", "errors", "fatal", "custom", "mismatch", "badinput", "invalid", "codes", "codes", "cap", "mute", "noreport", "noreport"])
+    kind = rng.choice(["clean", "errors", "errors", "fatal", "custom", "mismatch", "badinput", "invalid", "codes", "codes", "cap", "mute", "noreport", "noreport", "storm"])
     N = rng.choice([1, 2, 7, 123, 255])
     mode = rng.choice(list(obs.MODES))
     margs = obs.MODES[mode]
@@ -166,6 +166,54 @@ def one_case(args):
                     return bad("fatal framing error at packet %d: %s (options %s, expected %d)" % (j, r.abnormal(allowed_rc=(want,)), opt, want), r)
                 if r.stats is None or not r.stats["error_stats"].get("fatal_error"):
                     return bad("fatal: no fatal error recorded for offset_to_next = %d" % pk[j].f["offset_to_next"], r)
+        elif kind == "storm":
+            # scale: thousands of errors (beyond any internal chunk / buffer size of the display path), optionally ended by a fatal framing error or capped by -e N
+            sub = rng.choice(["fatal_end", "cap", "cap", "plain"])
+            # (the reader runs up to ~10 000 packets ahead of the validators, and errors that arrive after a fatal error are dropped by design: the
+            # framing error sits behind 20 000 packets so that thousands of errors are collected before it)
+            n = 20000 if sub == "fatal_end" else rng.choice([3000, 6000, 20000])
+            fp = frame.generate(rng, n, payload="none", sane_headers=True)
+            for q in fp:
+                q.f["system_id"] = 32
+                q.f["stop_bit"] = 2         # one [E10] per RDH at least
+            data = bytearray(frame.serialize(fp))
+            if sub == "fatal_end":
+                data[fp[-1].offset + 8:fp[-1].offset + 10] = b"\xff\xff"
+            p = put("in.raw", bytes(data))
+            margs2 = rng.choice([["check", "sanity"], ["check", "all"]])
+            out["sample"] = "%s (%s), %d RDHs with errors, %s" % (kind, sub, n, " ".join(margs2))
+            if sub == "cap":
+                cap = rng.choice([1025, 1500, 2048, 2049, 5000])
+                r = run([p] + margs2 + ["-e", str(cap)], stats="json")
+                if r.sig is not None or r.panicked() or r.timeout or r.stats is None:
+                    return bad("cap: %s" % (r.abnormal() or "no statistics file"), r)
+                shown = len(r.displayed_errors())
+                if shown > cap:
+                    return bad("cap: -e %d shows %d messages" % (cap, shown), r)
+                if shown < min(cap, r.total_errors()):
+                    return bad("cap: -e %d shows only %d messages although %d were collected" % (cap, shown, r.total_errors()), r)
+                out["key"] = (kind, sub, cap, n)
+                return out
+            r = run([p] + margs2 + ["-E", str(N)], stats="json")
+            if r.abnormal(allowed_rc=(N,)) or r.stats is None:
+                return bad("storm: %s" % (r.abnormal(allowed_rc=(N,)) or "no statistics file"), r)
+            es = r.stats["error_stats"]
+            ftxt = str(es.get("fatal_error") or "\0")[:40]
+            shown = len([m for m in r.displayed_errors() if "FATAL" not in m.text and ftxt not in m.text])
+            if shown != es["total_errors"] or r.report_rows().get("Total Errors") != str(es["total_errors"]):
+                return bad("totals: %d messages displayed, total_errors = %d, report row %s" % (shown, es["total_errors"], r.report_rows().get("Total Errors")), r)
+            if sub == "fatal_end":
+                if not es.get("fatal_error"):
+                    return bad("fatal: no fatal error recorded", r)
+                if "FATAL" not in r.stderr and str(es["fatal_error"])[:30] not in r.stderr:
+                    return bad("fatal: the fatal error is not displayed", r)
+                if es["total_errors"] <= 2048:
+                    out["key"] = (kind, sub, "few collected")
+                    return out
+            elif es["total_errors"] < n:
+                return bad("totals: %d RDHs with stop_bit = 2 but only %d errors" % (n, es["total_errors"]), r)
+            out["key"] = (kind, sub, n)
+            return out
         elif kind == "custom":
             s = gen.generate(rng.getrandbits(40))
             p = put("in.raw", s.serialize())
@@ -302,7 +350,7 @@ def run(res):
         if o["sample"]:
             res.sample(o["sample"], cap=8)
     res.rule = ("contract table x N in {1,2,7,123,255} x check modes: clean / k errors / mid-stream fatal framing error / custom-check failure / statistics mismatch / "
-                "views and filtered writing with [E100] / [E9001] (no report printed) / missing, empty, short, non-ALICE input / 16 invalid option combinations (all of them in every such case) / -m / -w code lists incl. prefixes / -e around the true count; "
+                "views and filtered writing with [E100] / [E9001] (no report printed) / storms of 3000..20000 errors (all displayed; -e N in {1025..5000} shows min(N, collected); fatal error after them still displayed) / missing, empty, short, non-ALICE input / 16 invalid option combinations (all of them in every such case) / -m / -w code lists incl. prefixes / -e around the true count; "
                 "non-trivial = distinct (row of the table, configuration)")
     res.min_nontrivial = 40 if res.tier == "quick" else 120
     res.assumptions = ["totals compared with the displayed entries only for inputs without a fatal error and without display options", "-w matches the leading code of a message"]
